@@ -205,22 +205,22 @@ theorem ipk_scripts_in_control_archive (mtime : Nat) (control conffiles : Bytes)
   obtain ⟨l1, l2, l3⟩ := DebCtl.lookup_ipkMembers mtime control conffiles scripts
   exact ⟨_, Tar.read_archive _ (DebCtl.ipkMembers_ok mtime control conffiles scripts hm hc hf hs), l1, l2, l3⟩
 
-/-- **apk: the scripts inside the control segment**: the members apk.createBuilderControl writes are .PKGINFO and, for
+/-- **apk: the scripts inside the control segment**: the members apk.createBuilderControl writes are .PKGINFO (stamped with the package mtime) and, for
     each of the six slots, a member under the slot's name iff that script is configured – then with the configured
     bytes, mode 0755, the script file's mtime and the record APK-TOOLS.checksum.SHA1 = hash of exactly those bytes; and
     the apk file built from them (signature segment, control segment, data segment, each cut or complete as apk wants
     them) is ONE tar stream from which an independent reader recovers these very members between the signature's and the
     data's (for every hash function; `PaxOK`: the members are expressible in archive/tar's PAX rendering) -/
 theorem apk_scripts_in_control_segment (sha1hex : Bytes → Bytes) (pkginfo : Bytes) (scripts : Bytes → Option (Bytes × Nat))
-    (sig : Option (List Tar.PMember)) (data : List Tar.PMember)
-    (hraw : ∀ r ∈ ((sig.getD []) ++ ApkCtl.members sha1hex pkginfo scripts ++ data).flatMap Tar.expand, Tar.MemberOK r)
-    (hlog : ∀ m ∈ (sig.getD []) ++ ApkCtl.members sha1hex pkginfo scripts ++ data, Tar.PMemberOK m) :
-    Tar.paxRead (Pkg.apkStream sig (ApkCtl.members sha1hex pkginfo scripts) data)
-        = some ((sig.getD []) ++ ApkCtl.members sha1hex pkginfo scripts ++ data)
-      ∧ ApkCtl.lookup b!".PKGINFO" (ApkCtl.members sha1hex pkginfo scripts) = some (ApkCtl.pkginfoMember pkginfo)
-      ∧ ∀ n ∈ ApkCtl.slots, ApkCtl.lookup n (ApkCtl.members sha1hex pkginfo scripts)
+    (mtime : Nat) (sig : Option (List Tar.PMember)) (data : List Tar.PMember)
+    (hraw : ∀ r ∈ ((sig.getD []) ++ ApkCtl.members sha1hex pkginfo scripts mtime ++ data).flatMap Tar.expand, Tar.MemberOK r)
+    (hlog : ∀ m ∈ (sig.getD []) ++ ApkCtl.members sha1hex pkginfo scripts mtime ++ data, Tar.PMemberOK m) :
+    Tar.paxRead (Pkg.apkStream sig (ApkCtl.members sha1hex pkginfo scripts mtime) data)
+        = some ((sig.getD []) ++ ApkCtl.members sha1hex pkginfo scripts mtime ++ data)
+      ∧ ApkCtl.lookup b!".PKGINFO" (ApkCtl.members sha1hex pkginfo scripts mtime) = some (ApkCtl.pkginfoMember pkginfo mtime)
+      ∧ ∀ n ∈ ApkCtl.slots, ApkCtl.lookup n (ApkCtl.members sha1hex pkginfo scripts mtime)
           = (scripts n).map (fun p => ApkCtl.scriptMember sha1hex n p.1 p.2) := by
-  obtain ⟨l1, l2⟩ := ApkCtl.lookup_members sha1hex pkginfo scripts
+  obtain ⟨l1, l2⟩ := ApkCtl.lookup_members sha1hex pkginfo scripts mtime
   exact ⟨Pkg.apkStream_reads sig _ data hraw hlog, l1, l2⟩
 
 /-- non-vacuity, kernel-evaluated on one instance: a control segment with .PKGINFO and a post-install script – the
